@@ -19,6 +19,16 @@ def pairVal (p : Int × Int) : Val := .l [.i p.1, .i p.2]
 
 def step (_ : Unit) (toks : List Val) (_impl : String) : Unit × Out :=
   match toks with
+  | [.w "chunkunits", .i n, .i size, .i variant] =>
+    -- n zero-size elements (n huge), only the piece LENGTHS are observed: `C13.chunk_lengths` / `chunk_count` / `windowed_*` as arithmetic
+    if n < 0 ∨ size ≤ 0 then ((), { model := "unmodelled", tags := ["chunkunits.bad"] }) else
+    let N := n.toNat
+    let S := size.toNat
+    let r :=
+      if variant == 0 ∨ variant == 1 then
+        List.replicate (N / S) (S : Int) ++ (if N % S = 0 then [] else [((N % S : Nat) : Int)])
+      else if N < S then [0, -1, -1] else [((N - S + 1 : Nat) : Int), (S : Int), (S : Int)]
+    ((), { model := (ofInts r).render, spec := some (ofInts r).render, tags := ["chunkunits"] })
   | [.w "chunk", l, .i size] =>
     match l.ints? with
     | some s =>
